@@ -27,7 +27,7 @@ def generate(tier):
     """yields (key, shape, group, partner, own cfg, [other cfgs], order, split)"""
     level_shapes = K.xshapes('small' if tier == 'quick' else 'full')
     if tier == 'quick':
-        level_shapes = [sh for sh in level_shapes if not sh.code().endswith('|ty')]
+        level_shapes = [sh for sh in level_shapes if not sh.code().endswith(('|ty', '|w'))]
     for shape in level_shapes:
         for g in K.GROUPS:
             for partner in ([False, True] if g in K.PARTNER else [False]):
